@@ -124,4 +124,111 @@ theorem unregister_endon_destroys (fuel : Nat) {C W : List Nat} {s : State} (h :
   · refine hfold.bind (unregNotify_pres P.swf P.sn _ _ _) (fun q => Ok.pure ?_)
     exact hclaim _ (unregNotify_hv (hvAll (fuel + 1)).swf (hvAll (fuel + 1)).sn _ _ _) q.2
 
+/-! ### the kill loop of `UnregisterAll` -/
+
+/-- `StoppedWaitFor(name, true)` = `delete` -/
+theorem swf_deleting_noVM (fuel : Nat) {s : State} (hn : NInv s) (l n : Nat) :
+    NoVM (stoppedWaitFor (fuel + 2) s l n true) l := by
+  rw [stoppedWaitFor_succ]
+  split
+  · rename_i hnt
+    intro th hth
+    have := (hn.range l th hth).1
+    have hlt : State.isThread l = false := by simpa using hnt
+    simp [State.isThread] at hlt
+    omega
+  · cases hf : s.th? l with
+    | none =>
+      simp only
+      intro th hth
+      rw [State.th?_eq] at hf
+      rw [hf] at hth; cases hth
+    | some th =>
+      rw [State.th?_eq] at hf
+      simp only
+      split
+      · rename_i hv
+        intro th' hth'
+        rw [hf] at hth'; cases hth'
+        simpa using hv
+      · simp only [if_true]
+        exact deleteThread_noVM fuel hn l
+
+theorem killFold_hv {swf : State → Nat → Nat → Bool → State} (hp : HV3 swf) :
+    ∀ (L : List (Nat × Nat)) (s : State),
+      HV s (L.foldl (fun s (ln : Nat × Nat) => if s.alive ln.1 then swf s ln.1 ln.2 true else s) s)
+  | [], s => HV.refl s
+  | ln :: L, s => by
+    simp only [List.foldl_cons]
+    refine HV.trans ?_ (killFold_hv hp L _)
+    split
+    · exact hp _ _ _ _
+    · exact HV.refl s
+
+theorem killFold_noVM (fuel : Nat) (C W : List Nat) :
+    ∀ (L : List (Nat × Nat)) (s : State), Inv C (L.map (·.1) ++ W) none s →
+      Ok (L.foldl (fun s (ln : Nat × Nat) => if s.alive ln.1 then stoppedWaitFor (fuel + 2) s ln.1 ln.2 true else s) s)
+        (∀ ln ∈ L, ln.1 < s.nextTid →
+          NoVM (L.foldl (fun s (ln : Nat × Nat) => if s.alive ln.1 then stoppedWaitFor (fuel + 2) s ln.1 ln.2 true else s) s) ln.1)
+  | [], _, _ => Ok.pure (fun ln h => by cases h)
+  | ln :: L, s, h => by
+    simp only [List.foldl_cons]
+    have P := presAll (fuel + 2)
+    have I := iAll (fuel + 2)
+    have H := hvAll (fuel + 2)
+    have hrest : ∀ s1 : State, Pres s1 (L.foldl (fun s (ln : Nat × Nat) =>
+        if s.alive ln.1 then stoppedWaitFor (fuel + 2) s ln.1 ln.2 true else s) s1) :=
+      fun s1 => Pres.foldl _ (fun s a => by split; exact P.swf _ _ _ _; exact Pres.refl s) L s1
+    by_cases ha : s.alive ln.1 = true
+    · simp only [ha, if_true]
+      have hv1 : HV s (stoppedWaitFor (fuel + 2) s ln.1 ln.2 true) := H.swf _ _ _ _
+      refine (I.swf C (L.map (·.1) ++ W) s ln.1 ln.2 true h (fun _ hd => by cases hd)).bind (hrest _) (fun p => ?_)
+      refine (killFold_noVM fuel C W L _ p.1).map (fun q => ?_)
+      intro x hx hxl
+      rcases List.mem_cons.1 hx with hx | hx
+      · subst hx
+        exact (swf_deleting_noVM fuel h.n x.1 x.2).of_hv (killFold_hv H.swf L _) (Nat.lt_of_lt_of_le hxl hv1.nt)
+      · exact q x hx (Nat.lt_of_lt_of_le hxl hv1.nt)
+    · simp only [ha]
+      refine (killFold_noVM fuel C W L s (h.dropW_not_alive ha)).map (fun q => ?_)
+      intro x hx hxl
+      rcases List.mem_cons.1 hx with hx | hx
+      · subst hx
+        exact (h.not_alive_noVM ha).of_hv (killFold_hv H.swf L _) hxl
+      · exact q x hx hxl
+
+/-- **a removed source destroys its waiters, inside the removal's own call**: the main part of `UnregisterAll`
+    (after `Unregister(0)` and the removal of the `endon` lists) run in a state satisfying the machine invariant
+    returns — unless out of fuel — with every listener that was registered on the source, under any name, without a
+    VM: they were deleted (`StoppedWaitFor(name, true)`), none was executed. -/
+theorem uaRest_destroys_waiters (fuel : Nat) {C W : List Nat} {s : State} (h : Inv C W none s) (src : Nat) :
+    Ok (uaRest (stoppedWaitFor (fuel + 2)) (stoppedNotify (fuel + 2)) s src)
+      (∀ n x, x ∈ Tbl.getD s.notify (src, n) →
+        NoVM (uaRest (stoppedWaitFor (fuel + 2)) (stoppedNotify (fuel + 2)) s src) x) := by
+  unfold uaRest
+  split
+  · rename_i hno
+    refine Ok.pure (fun n x hx => ?_)
+    exfalso
+    have : Tbl.hasOwner s.notify src = true := (h.n.wfN.hasOwner_iff src).2 ⟨n, List.ne_nil_of_mem hx⟩
+    simp [this] at hno
+  · simp only [killLoop]
+    have h1 := uaRest_mid h src
+    have hfr := uaTargets_frame s src
+    have P := presAll (fuel + 2)
+    have I := iAll (fuel + 2)
+    rw [hfr]
+    refine (I.sn C _ _ src h1).bind ?_ (fun p2 => ?_)
+    · exact Pres.foldl _ (fun s a => by split; exact P.swf _ _ _ _; exact Pres.refl s) _ _
+    refine (killFold_noVM fuel C W _ _ p2).map (fun q n x hx => ?_)
+    have hal := h.waiters_alive src n x hx
+    have hsx := (h.tab.mir.mem_iff src n x).1 hx
+    have hmem := uaTargets_complete s src h.n.wfN n x hx hal hsx
+    have hx100 : 100 ≤ x := h.n.nMem _ _ hx
+    rw [State.alive_thread _ (by simpa [State.isThread] using hx100)] at hal
+    obtain ⟨th, hth, _⟩ := (aliveTh_iff h.n.nodup x).1 hal
+    have hlt : x < s.nextTid := (h.n.range x th hth).2
+    have hq := ((qAll (fuel + 2)).sn [] _ src h1.n).tid
+    exact q (x, n) (List.mem_reverse.2 hmem) (by rw [hq]; exact hlt)
+
 end Morfuse.Sched
